@@ -7,7 +7,7 @@ Import ListNotations.
 Local Open Scope N_scope.
 
 (* ---------------------------------------------------------------- inversion of the primitives *)
-Lemma push_inv c s v s' : push c s v = Ok s' -> s' = set_stack s (v :: s_stack s).
+Lemma push_inv c s v s' : push c s v = Ok s' -> s' = set_stack s (norm c v :: s_stack s).
 Proof. unfold push. destruct (full _ _); [discriminate|]. now inversion 1. Qed.
 Lemma pop_inv s v s' : pop s = Ok (v, s') -> exists r, s_stack s = v :: r /\ s' = set_stack s r.
 Proof. unfold pop. destruct (s_stack s) as [|x r]; [discriminate|]. inversion 1; subst. now exists r. Qed.
@@ -609,3 +609,112 @@ Proof.
   destruct I1 as [R1 V1]. apply (ei_pieces dbg c mask fuel s1 o s); auto. rewrite R1. constructor.
 Qed.
 End Pieces.
+
+(* ---------------------------------------------------------------- the normalised machine keeps its stack canonical *)
+Definition gcanon (bits : N) (v : value) : Prop := vty v = TGeneric -> vbits v < 2 ^ bits.
+Definition canon_stack (c : cfg) (s : st) : Prop :=
+  match c_canon c with
+  | Some bits => Forall (gcanon bits) (s_stack s)
+  | None => True
+  end.
+
+Lemma norm_gcanon c bits v : c_canon c = Some bits -> gcanon bits (norm c v).
+Proof.
+  intros E. unfold norm, gcanon. rewrite E. destruct (vty v) eqn:T; cbn [vty vbits]; intros H; try congruence.
+  rewrite N.land_ones. apply N.mod_lt, N.pow_nonzero. lia.
+Qed.
+
+Ltac forall_inv :=
+  repeat match goal with
+  | H : _ :: _ = _ :: _ |- _ => inversion H; subst; clear H
+  | H : Forall _ (_ :: _) |- _ => inversion H; subst; clear H
+  end.
+
+Section Canon.
+Variable F : fops.
+
+Lemma eoo_canon dbg c mask s r s' :
+  canon_stack c s -> evaluate_one_operation F dbg c mask s = Ok (r, s') -> canon_stack c s'.
+Proof.
+  unfold canon_stack. destruct (c_canon c) as [bits|] eqn:CC; [|trivial]. intros CS H.
+  unfold evaluate_one_operation in H.
+  destruct (parse_op dbg (c_enc c) (s_pc (count_op (count_parse s)))) as [[o pc']| | |] eqn:P; cbn [bind] in H; try discriminate H.
+  fields.
+  destruct o; unfold binop, unop in H; peel; invert_prims; fields;
+    repeat match goal with E : s_stack _ = _ |- _ => fields; rewrite E in *; clear E end; fields;
+    forall_inv; repeat (apply Forall_cons; [apply (norm_gcanon c bits _ CC)|]); auto.
+Qed.
+
+Lemma resume_apply_canon c mask w a s s' :
+  canon_stack c s -> resume_apply F c mask w a s = Ok s' -> canon_stack c s'.
+Proof.
+  unfold canon_stack. destruct (c_canon c) as [bits|] eqn:CC; [|trivial]. intros CS H.
+  unfold resume_apply in H.
+  destruct w; peel; invert_prims; fields;
+    repeat match goal with E : s_stack _ = _ |- _ => fields; rewrite E in *; clear E end; fields;
+    forall_inv; repeat (apply Forall_cons; [apply (norm_gcanon c bits _ CC)|]); auto.
+Qed.
+End Canon.
+
+Section Canon2.
+Variable F : fops.
+
+Lemma eoe_stack s : s_stack (snd (end_of_expression s)) = s_stack s.
+Proof. unfold end_of_expression. destruct (eoe_loop _ _ _) as [b [[pc bc] es]]. reflexivity. Qed.
+
+Lemma ei_canon dbg c mask : forall fuel s o s',
+  canon_stack c s -> evaluate_internal F fuel dbg c mask s = Ok (o, s') -> canon_stack c s'.
+Proof.
+  induction fuel as [|fuel IH]; intros s o s' CS H; [discriminate H|].
+  cbn [evaluate_internal] in H.
+  pose proof (eoe_stack s) as ES.
+  destruct (end_of_expression s) as [e s1]. cbn [snd] in ES.
+  assert (CS1 : canon_stack c s1) by (unfold canon_stack in *; rewrite ES; exact CS).
+  destruct e.
+  { unfold finish in H. unfold canon_stack in *. destruct (c_canon c) as [bits|]; [|trivial].
+    peel; invert_prims; fields;
+      repeat match goal with E : s_stack _ = _ |- _ => fields; rewrite E in *; clear E end; fields; forall_inv; auto. }
+  destruct (chk_add 32 dbg (s_iter s1) 1) as [it| | |]; cbn [bind] in H; try discriminate H.
+  destruct (match c_max c with Some m => m <? it | None => false end); [discriminate H|].
+  destruct (evaluate_one_operation F dbg c mask (set_iter s1 it)) as [[r s3]| | |] eqn:EO; cbn [bind] in H; try discriminate H.
+  assert (CS3 : canon_stack c s3) by (eapply eoo_canon; [|exact EO]; unfold canon_stack in *; fields; exact CS1).
+  destruct r.
+  - eapply IH; [|exact H]. exact CS3.
+  - pose proof (eoe_stack s3) as E4. destruct (end_of_expression s3) as [e4 s4]. cbn [snd] in E4.
+    destruct (e4 && _); [discriminate H|]. eapply IH; [|exact H]. unfold canon_stack in *. rewrite E4. exact CS3.
+  - pose proof (eoe_stack s3) as E4. destruct (end_of_expression s3) as [e4 s4]. cbn [snd] in E4.
+    assert (CS4 : canon_stack c s4) by (unfold canon_stack in *; rewrite E4; exact CS3).
+    destruct e4.
+    + destruct (s_result s4); [|discriminate H].
+      destruct (push_piece c s4 _) as [s5| | |] eqn:PP; cbn [bind] in H; try discriminate H.
+      apply push_piece_inv in PP. subst s5. eapply IH; [|exact H]. unfold canon_stack in *; fields. exact CS4.
+    + cbv zeta in H. fields.
+      destruct (parse_op dbg (c_enc c) (s_pc s4)) as [[o2 pc2]| | |] eqn:P2; cbn [bind] in H; try discriminate H.
+      destruct o2; peel.
+      match goal with PP : push_piece _ _ _ = Ok ?s5 |- _ => apply push_piece_inv in PP; subst s5 end.
+      eapply IH; [|exact H]. unfold canon_stack in *; fields. exact CS4.
+  - inversion H; subst. exact CS3.
+Qed.
+
+(* the normalised machine (c_canon = Some bits): every state handed back to the consumer has a stack whose
+   generic values are below 2^bits *)
+Lemma normalised_machine_lemma dbg c mask bits : c_canon c = Some bits ->
+  (forall fuel program o s, evaluate F fuel dbg c mask program = Ok (o, s) -> Forall (gcanon bits) (s_stack s)) /\
+  (forall fuel w a s o s', Forall (gcanon bits) (s_stack s) -> resume F fuel dbg c mask w a s = Ok (o, s') ->
+     Forall (gcanon bits) (s_stack s')).
+Proof.
+  intros CC. split.
+  - intros fuel program o s H. unfold evaluate in H.
+    destruct (match c_init c with Some v => _ | None => _ end) as [s1| | |] eqn:PI; cbn [bind] in H; try discriminate H.
+    assert (CS1 : canon_stack c s1).
+    { unfold canon_stack. rewrite CC. destruct (c_init c); [apply push_inv in PI; subst|inversion PI; subst]; fields.
+      - constructor; [apply (norm_gcanon c bits _ CC)|constructor].
+      - constructor. }
+    pose proof (ei_canon dbg c mask fuel s1 o s CS1 H) as R. unfold canon_stack in R. now rewrite CC in R.
+  - intros fuel w a s o s' CS H. unfold resume in H.
+    destruct (resume_apply F c mask w a s) as [s1| | |] eqn:RA; cbn [bind] in H; try discriminate H.
+    assert (CS0 : canon_stack c s) by (unfold canon_stack; now rewrite CC).
+    pose proof (resume_apply_canon F c mask w a s s1 CS0 RA) as CS1.
+    pose proof (ei_canon dbg c mask fuel s1 o s' CS1 H) as R. unfold canon_stack in R. now rewrite CC in R.
+Qed.
+End Canon2.
